@@ -14,6 +14,7 @@ import QuantityModel.Gen.Catalogue
 import QuantityModel.Gen.Prefixes
 import QuantityModel.Gen.DocTables
 import QuantityModel.Proofs.RegistryTerm
+import QuantityModel.Proofs.Resolve
 namespace QM.Props.C20
 open QM
 
@@ -167,5 +168,24 @@ theorem catalogue_resolution_depends_on_denotation (t₁ t₂ : Items)
   have heq : ∀ x, termEq catState.unitEnv x t₁ = termEq catState.unitEnv x t₂ := by
     intro x; unfold termEq; rw [hnf]
   simp only [heq, hnf]
+
+/-- non-vacuity of C02's completeness theorem (`amntAndUnit_complete`): km/min
+in the catalogue (units 14 and 25) — no unit `km/min` exists; the reference
+unit m/s of Velocity (unit 52, registered under `m·s⁻¹`) carries the exponents;
+every hypothesis of the theorem is met, and the resolution indeed succeeds
+(with factor 50/3) -/
+theorem km_per_min_resolves :
+    catState.amntAndUnit (mkTerm catState.unitEnv [(.atom 14, 1), (.atom 25, -1)]) ≠ none := by
+  have hexp : expanded catState.unitEnv (mkTerm catState.unitEnv [(.atom 14, 1), (.atom 25, -1)])
+      = [(.num 1000, 1), (.atom 8, 1), (.num 60, -1), (.atom 21, -1)] := by decide +kernel
+  refine amntAndUnit_complete catState
+    (defsBaseOnly_of_check _ catalogue_meets_term_hypotheses.2)
+    (baseNoConv_of_check _ catalogue_meets_term_hypotheses.1) _
+    (by decide +kernel) [(.atom 8, 1), (.atom 21, -1)] 52
+    (by decide +kernel) (by decide +kernel) (by decide +kernel) (by simp [numVal])
+    (by decide +kernel) ?_
+  intro a
+  rw [hexp]
+  simp [expOf]
 
 end QM.Props.C20
